@@ -1,10 +1,637 @@
-// Package c18 holds the runtime monitors for property C18 (see DESIGN.md section 4).
+// Package c18 holds the runtime monitors for property C18: tokens, errors and
+// breakpoints carry the true source position (DESIGN.md section 4).
 package c18
 
-import "verif/harness/core"
+import (
+	"fmt"
+	"runtime"
+	"strings"
+
+	"github.com/krotik/ecal/interpreter"
+	"github.com/krotik/ecal/parser"
+	"github.com/krotik/ecal/scope"
+	"github.com/krotik/ecal/util"
+	"github.com/krotik/ecal/verifhook"
+
+	"verif/harness/core"
+)
 
 func init() { core.Register("C18", Run) }
 
+const srcName = "c18src"
+
+type monitor struct {
+	c       *core.Ctx
+	counts  map[string]int64
+	emitted map[string]int
+	erp     *interpreter.ECALRuntimeProvider
+}
+
+func (m *monitor) ev(name string) { m.counts[name]++ }
+
+func trunc(s string, n int) string {
+	if len(s) > n {
+		return s[:n] + fmt.Sprintf("…(%d bytes)", len(s))
+	}
+	return s
+}
+
+func (m *monitor) violation(key, what, stream string, idx int, src string, extra map[string]interface{}) {
+	m.counts["violation:"+key]++
+	if m.emitted[key] >= 4 {
+		return
+	}
+	m.emitted[key]++
+	d := map[string]interface{}{"input": trunc(src, 1200), "input_quoted": fmt.Sprintf("%q", trunc(src, 500))}
+	for k, v := range extra {
+		d[k] = v
+	}
+	m.c.Violation(key, what, stream, idx, d)
+}
+
+// ---------------------------------------------------------------------
+// the position reference
+
+type pos struct{ line, col int }
+
+// truePos is the ground truth recomputed from the text alone (used for error
+// positions; for tokens the builder's own bookkeeping is the primary truth and
+// this function is its cross-check).
+func truePos(src string, off int) pos {
+	line, last := 1, -1
+	for i := 0; i < off && i < len(src); i++ {
+		if src[i] == '\n' {
+			line++
+			last = i
+		}
+	}
+	return pos{line, off - last}
+}
+
+// Known deviation switch: after a '#' comment the line counter advances but
+// the line-start offset does not (candidate finding 25). devPos evaluates the
+// reference with that switch on and tells whether the switch influenced the
+// result for this offset.
+func devPos(src string, off int, hashNL map[int]bool) (pos, bool) {
+	line, last, lastTrue := 1, -1, -1
+	for i := 0; i < off && i < len(src); i++ {
+		if src[i] == '\n' {
+			line++
+			lastTrue = i
+			if !hashNL[i] {
+				last = i
+			}
+		}
+	}
+	return pos{line, off - last}, last != lastTrue
+}
+
+const devHash = "dev:hash-comment-keeps-line-start"
+
+// judge compares one reported position with the reference.
+// returns "" (ok), the deviation key or a diff key.
+func judge(src string, off int, hashNL map[int]bool, got pos, what string) string {
+	want := truePos(src, off)
+	if got == want {
+		return ""
+	}
+	if d, fired := devPos(src, off, hashNL); fired && got == d {
+		return devHash
+	}
+	if got.line != want.line {
+		return "diff:" + what + "-line"
+	}
+	return "diff:" + what + "-column"
+}
+
+// ---------------------------------------------------------------------
+// token positions
+
+func (m *monitor) checkTokens(stream string, idx int, b *builder) {
+	src := b.String()
+	var real []parser.LexToken
+	key, msg, panicked := core.Guard(func() { real = parser.LexToList(srcName, src) })
+	if panicked {
+		m.violation(key, "panic in LexToList", stream, idx, src, map[string]interface{}{"panic": trunc(msg, 1500)})
+		return
+	}
+	var toks []parser.LexToken
+	for _, t := range real {
+		switch t.ID {
+		case parser.TokenPRECOMMENT, parser.TokenPOSTCOMMENT, parser.TokenEOF:
+			m.ev("lex.token.excluded(comment/EOF)")
+		default:
+			toks = append(toks, t)
+		}
+	}
+	m.counts["lex.token.compared"] += int64(len(toks))
+	describe := func() []string {
+		var r []string
+		for _, t := range toks {
+			r = append(r, fmt.Sprintf("id=%d pos=%d line=%d col=%d val=%q", t.ID, t.Pos, t.Lline, t.Lpos, trunc(t.Val, 30)))
+		}
+		if len(r) > 12 {
+			r = r[:12]
+		}
+		return r
+	}
+	if len(toks) != len(b.toks) {
+		m.violation("diff:tokenization", fmt.Sprintf("the lexer produced %d tokens for a text built from %d tokens", len(toks), len(b.toks)),
+			stream, idx, src, map[string]interface{}{"lexer": describe(), "built": b.toks})
+		return
+	}
+	reported := map[string]bool{}
+	for i, t := range toks {
+		g := b.toks[i]
+		// cross-check of the builder's bookkeeping against the text
+		if tp := truePos(src, g.offset); tp.line != g.line || tp.col != g.col || !strings.HasPrefix(src[g.offset:], g.text) {
+			panic(fmt.Sprintf("c18 builder inconsistent at token %d: %+v vs %+v", i, g, tp))
+		}
+		if t.ID == parser.TokenError {
+			m.violation("diff:tokenization", "the lexer reports an error token for a well-formed token text: "+t.Val, stream, idx, src,
+				map[string]interface{}{"token": g, "lexer": describe()})
+			return
+		}
+		k := ""
+		if t.Pos != g.offset {
+			k = "diff:token-offset"
+		} else {
+			k = judge(src, g.offset, b.hashNL, pos{t.Lline, t.Lpos}, "token")
+		}
+		if k != "" && !reported[k] {
+			reported[k] = true
+			prev := ""
+			if i > 0 {
+				prev = b.toks[i-1].kind
+			}
+			m.violation(k, fmt.Sprintf("token %d (%s %q) is at offset %d, line %d, column %d; the lexer reports Pos=%d Lline=%d Lpos=%d",
+				i, g.kind, trunc(g.text, 30), g.offset, g.line, g.col, t.Pos, t.Lline, t.Lpos), stream, idx, src,
+				map[string]interface{}{"token_index": i, "token_kind": g.kind, "previous_kind": prev,
+					"true": map[string]int{"offset": g.offset, "line": g.line, "column": g.col},
+					"reported": map[string]int{"offset": t.Pos, "line": t.Lline, "column": t.Lpos}})
+		}
+	}
+}
+
+// ---------------------------------------------------------------------
+// programs with known statement positions
+
+type stmt struct {
+	name   string
+	offset int // first byte of the statement
+	line   int
+}
+
+// statement separators: every one contains at least one newline, so the next
+// statement starts on a later line; comments only, no code.
+func stmtSep(r *core.Rand) []string {
+	var atoms []string
+	n := 1 + r.Intn(4)
+	nl := false
+	for i := 0; i < n; i++ {
+		a := randAtom(r)
+		if strings.Contains(a, "\n") {
+			nl = true
+		}
+		atoms = append(atoms, a)
+	}
+	if !nl {
+		k := []string{"\n", "\r\n", "# sep\n", "/* a\nb */"}
+		atoms = append(atoms, k[r.Intn(len(k))])
+	}
+	return atoms
+}
+
+var rhs = []string{"1", "2 + 3", `"s"`, "[1, 2]", "{1 : 2}", "r\"l1\nl2\"", "r'a\n\nb'", "true", "1 * (2 + 3)", `"ä€"`}
+
+// buildProgram makes n assignments v1..vn, one per line, with random comment
+// separators between them. plant(i, b) may add text before statement i.
+func buildProgram(r *core.Rand, n int, lead bool, before func(i int, b *builder), after ...func(i int, b *builder)) (*builder, []stmt) {
+	b := newBuilder()
+	var st []stmt
+	if lead {
+		for _, a := range stmtSep(r) {
+			b.sep(a)
+		}
+	}
+	for i := 1; i <= n; i++ {
+		if before != nil {
+			before(i, b)
+		}
+		name := fmt.Sprintf("v%d", i)
+		s := stmt{name, b.sb.Len(), b.line}
+		b.tok(&tokKind{"identifier", name, clsWord})
+		b.sep(" ")
+		b.tok(&tokKind{"symbol :=", ":=", clsSym})
+		b.sep(" ")
+		// the value is appended as raw text: only statement starts are judged here
+		b.raw(rhs[r.Intn(len(rhs))])
+		b.lastTok = nil
+		st = append(st, s)
+		for _, f := range after {
+			f(i, b)
+		}
+		if i < n || r.Bool() {
+			// a ' ' first: '#' must not touch the value
+			b.sep(" ")
+			for _, a := range stmtSep(r) {
+				b.sep(a)
+			}
+		}
+	}
+	return b, st
+}
+
+// separation: statements separated only by comments and newlines stay
+// separate statements, each starting on its true line.
+func (m *monitor) checkSeparation(stream string, idx int, r *core.Rand) {
+	n := 2 + r.Intn(5)
+	b, st := buildProgram(r, n, r.Bool(), nil)
+	src := b.String()
+	var tree *parser.ASTNode
+	var err error
+	key, msg, panicked := core.Guard(func() { tree, err = parser.Parse(srcName, src) })
+	if panicked {
+		m.violation(key, "panic in Parse", stream, idx, src, map[string]interface{}{"panic": trunc(msg, 1500)})
+		return
+	}
+	if err != nil || tree == nil {
+		m.violation("diff:separation-parse-error", fmt.Sprintf("a program of %d assignments separated by comment lines does not parse: %v", n, err),
+			stream, idx, src, nil)
+		return
+	}
+	if tree.Name != parser.NodeSTATEMENTS || len(tree.Children) != n {
+		m.violation("diff:separation-count", fmt.Sprintf("%d assignments separated only by comment lines parse into %d statement(s)", n, len(tree.Children)),
+			stream, idx, src, map[string]interface{}{"root": tree.Name})
+		return
+	}
+	for i, ch := range tree.Children {
+		if ch == nil || ch.Name != parser.NodeASSIGN || len(ch.Children) != 2 || ch.Children[0] == nil || ch.Children[0].Token == nil ||
+			ch.Children[0].Token.Val != st[i].name {
+			m.violation("diff:separation-shape", fmt.Sprintf("statement %d is not the assignment to %s", i+1, st[i].name), stream, idx, src, nil)
+			return
+		}
+		t := ch.Children[0].Token
+		if k := judge(src, st[i].offset, b.hashNL, pos{t.Lline, t.Lpos}, "statement"); k != "" {
+			m.violation(k, fmt.Sprintf("statement %d starts at line %d column 1, its first token reports line %d column %d", i+1, st[i].line, t.Lline, t.Lpos),
+				stream, idx, src, nil)
+			return
+		}
+	}
+	m.ev("separation.ok")
+	m.c.Nontrivial(core.Hash64("sep|" + src))
+}
+
+// planted parse errors
+func (m *monitor) checkParseError(stream string, idx int, r *core.Rand) {
+	n := 2 + r.Intn(4)
+	slot := 1 + r.Intn(n)
+	kinds := []string{")", "}", "]", "a$b", "ä", "@", "日本", "\"unterminated", "'open", "r\"open\nstill open"}
+	ki := r.Intn(len(kinds))
+	kind := kinds[ki]
+	atEnd := ki >= 7 // an unterminated string/comment swallows everything after it (an unterminated comment is not planted: comment positions follow the lexer's own start-of-text convention and are excluded)
+	sameLine := r.Chance(1, 3)
+	off := -1
+	errAt := 0 // offset inside the planted text of the token the error must point to
+	var b *builder
+	switch {
+	case atEnd:
+		b, _ = buildProgram(r, n, r.Bool(), nil)
+		if !strings.HasSuffix(b.String(), "\n") {
+			if sameLine {
+				b.sep(" ")
+			} else {
+				b.sep("\n")
+			}
+		}
+		for j, k := 0, r.Intn(3); j < k; j++ {
+			b.sep(" ")
+		}
+		off = b.sb.Len()
+		b.raw(kind)
+		if r.Bool() {
+			b.raw("\n v9 := 1\n")
+		}
+	case sameLine:
+		// on the line of statement `slot`, right after its value
+		b, _ = buildProgram(r, n, r.Bool(), nil, func(i int, b *builder) {
+			if i != slot {
+				return
+			}
+			for j, k := 0, 1+r.Intn(3); j < k; j++ {
+				b.sep(" ")
+			}
+			off = b.sb.Len()
+			b.raw(kind)
+		})
+	default:
+		// on a line of its own before statement `slot`
+		b, _ = buildProgram(r, n, r.Bool(), func(i int, b *builder) {
+			if i != slot {
+				return
+			}
+			if b.sb.Len() > 0 && !strings.HasSuffix(b.String(), "\n") {
+				b.sep("\n")
+			}
+			for j, k := 0, r.Intn(3); j < k; j++ {
+				b.sep(" ")
+			}
+			off = b.sb.Len()
+			b.raw(kind)
+			b.sep("\n")
+		})
+	}
+	src := b.String()
+	var tree *parser.ASTNode
+	var err error
+	key, msg, panicked := core.Guard(func() { tree, err = parser.Parse(srcName, src) })
+	_ = tree
+	if panicked {
+		m.violation(key, "panic in Parse", stream, idx, src, map[string]interface{}{"panic": trunc(msg, 1500)})
+		return
+	}
+	pe, ok := err.(*parser.Error)
+	if !ok || pe == nil {
+		m.violation("diff:planted-parse-error-missing", fmt.Sprintf("no parser error for a program with a planted %q: %v", kind, err), stream, idx, src, nil)
+		return
+	}
+	off += errAt
+	want := truePos(src, off)
+	k := judge(src, off, b.hashNL, pos{pe.Line, pe.Pos}, "parse-error")
+	if k != "" {
+		m.violation(k, fmt.Sprintf("planted %q at line %d column %d; the parser error says line %d column %d (%v)", kind, want.line, want.col, pe.Line, pe.Pos, pe.Type),
+			stream, idx, src, map[string]interface{}{"error": pe.Error(), "planted": kind})
+		return
+	}
+	m.ev("parse-error.ok:" + fmt.Sprint(pe.Type))
+	m.c.Nontrivial(core.Hash64("perr|" + src))
+}
+
+// planted runtime errors
+func (m *monitor) checkRuntimeError(stream string, idx int, r *core.Rand) {
+	n := 2 + r.Intn(4)
+	slot := 1 + r.Intn(n)
+	type plant struct {
+		text string
+		at   int // offset inside text of the token the error must point to
+		typ  error
+	}
+	plants := []plant{
+		{`w := 1 + "a"`, 9, util.ErrNotANumber},
+		{`w := "b" * 2`, 5, util.ErrNotANumber},
+		{`w := not 5`, 9, util.ErrNotABoolean},
+		{`w := 1 - (2 / "c")`, 14, util.ErrNotANumber},
+	}
+	p := plants[r.Intn(len(plants))]
+	off := -1
+	b, _ := buildProgram(r, n, r.Bool(), func(i int, b *builder) {
+		if i != slot {
+			return
+		}
+		if b.sb.Len() > 0 && !strings.HasSuffix(b.String(), "\n") {
+			b.sep("\n")
+		}
+		for j, k := 0, r.Intn(3); j < k; j++ {
+			b.sep(" ")
+		}
+		off = b.sb.Len() + p.at
+		b.raw(p.text)
+		b.sep(" ")
+		for _, a := range stmtSep(r) {
+			b.sep(a)
+		}
+	})
+	src := b.String()
+	var eerr error
+	var perr error
+	key, msg, panicked := core.Guard(func() {
+		var tree *parser.ASTNode
+		tree, perr = parser.ParseWithRuntime(srcName, src, m.erp)
+		if perr == nil {
+			if perr = tree.Runtime.Validate(); perr == nil {
+				vs := scope.NewScope(scope.GlobalScope)
+				_, eerr = tree.Runtime.Eval(vs, make(map[string]interface{}), m.erp.NewThreadID())
+			}
+		}
+	})
+	if panicked {
+		m.violation(key, "panic while running a planted-error program", stream, idx, src, map[string]interface{}{"panic": trunc(msg, 1500)})
+		return
+	}
+	if perr != nil {
+		m.violation("diff:planted-runtime-error-parse", fmt.Sprintf("program with planted runtime error does not parse/validate: %v", perr), stream, idx, src, nil)
+		return
+	}
+	re, ok := eerr.(*util.RuntimeError)
+	if !ok || re == nil || re.Type != p.typ {
+		m.violation("diff:planted-runtime-error-missing", fmt.Sprintf("expected a runtime error %v from %q, got %v", p.typ, p.text, eerr), stream, idx, src, nil)
+		return
+	}
+	want := truePos(src, off)
+	k := judge(src, off, b.hashNL, pos{re.Line, re.Pos}, "runtime-error")
+	if k != "" {
+		m.violation(k, fmt.Sprintf("runtime error planted at line %d column %d (%s); the error says line %d column %d", want.line, want.col, p.text, re.Line, re.Pos),
+			stream, idx, src, map[string]interface{}{"error": re.Error()})
+		return
+	}
+	m.ev("runtime-error.ok")
+	m.c.Nontrivial(core.Hash64("rerr|" + src))
+}
+
+// breakpoints: the real debugger gets a break point on the true line of one
+// statement; the observation point dbg.beforewait (build tag verif) tells where
+// the evaluating goroutine is about to suspend. The goroutine is ended right
+// there (runtime.Goexit, like the debugger's own kill), so no resume is needed.
+func (m *monitor) checkBreakpoint(stream string, idx int, r *core.Rand) {
+	n := 2 + r.Intn(5)
+	b, st := buildProgram(r, n, r.Bool(), nil)
+	src := b.String()
+	k := r.Intn(n)
+	vs := scope.NewScope(scope.GlobalScope)
+	dbg := interpreter.NewECALDebugger(vs)
+	erp := interpreter.NewECALRuntimeProvider(srcName, &util.MemoryImportLocator{Files: map[string]string{}}, util.NewNullLogger())
+	go erp.Cron.Stop() // never synchronously (can deadlock with the cron tick)
+	erp.Debugger = dbg
+	dbg.SetBreakPoint(srcName, st[k].line)
+	type obs struct {
+		line       int
+		prevSet    bool
+		selfSet    bool
+		suspended  bool
+		suspendCnt int
+	}
+	var o obs
+	verifhook.Set(func(point string, args []interface{}) {
+		if point != "dbg.beforewait" || len(args) < 4 {
+			return
+		}
+		o.suspendCnt++
+		o.suspended = true
+		o.line, _ = args[2].(int)
+		if k > 0 {
+			_, o.prevSet, _ = vs.GetValue(st[k-1].name)
+		}
+		_, o.selfSet, _ = vs.GetValue(st[k].name)
+		runtime.Goexit()
+	})
+	defer verifhook.Set(nil)
+	var perr, eerr error
+	var pmsg string
+	done := make(chan struct{})
+	go func() {
+		defer close(done)
+		_, pmsg, _ = core.Guard(func() {
+			var tree *parser.ASTNode
+			tree, perr = parser.ParseWithRuntime(srcName, src, erp)
+			if perr == nil {
+				if perr = tree.Runtime.Validate(); perr == nil {
+					_, eerr = tree.Runtime.Eval(vs, make(map[string]interface{}), erp.NewThreadID())
+				}
+			}
+		})
+	}()
+	<-done
+	if perr != nil || pmsg != "" {
+		m.violation("diff:breakpoint-program", fmt.Sprintf("breakpoint program does not run: %v %s", perr, trunc(pmsg, 300)), stream, idx, src, nil)
+		return
+	}
+	d := map[string]interface{}{"breakpoint_line": st[k].line, "statement": st[k].name, "observed": fmt.Sprintf("%+v", o), "eval_error": fmt.Sprint(eerr)}
+	switch {
+	case !o.suspended:
+		m.violation("diff:breakpoint-missed", fmt.Sprintf("a break point on line %d (statement %s) never suspended the evaluation", st[k].line, st[k].name), stream, idx, src, d)
+	case o.line != st[k].line || o.selfSet || (k > 0 && !o.prevSet):
+		m.violation("diff:breakpoint-wrong-statement", fmt.Sprintf("a break point on line %d (statement %s) suspended the evaluation elsewhere (line %d)", st[k].line, st[k].name, o.line), stream, idx, src, d)
+	default:
+		m.ev("breakpoint.ok")
+		m.c.Nontrivial(core.Hash64("bp|" + src + fmt.Sprint(k)))
+	}
+}
+
+// ---------------------------------------------------------------------
+
 // Run is the check.
 func Run(c *core.Ctx) {
+	m := &monitor{c: c, counts: map[string]int64{}, emitted: map[string]int{}}
+	m.erp = interpreter.NewECALRuntimeProvider(srcName, &util.MemoryImportLocator{Files: map[string]string{}}, util.NewNullLogger())
+	go m.erp.Cron.Stop() // never synchronously (can deadlock with the cron tick)
+	maxAtoms := c.Pick(2, 3)
+	seps := enumSeps(maxAtoms)
+	c.Note("rule", fmt.Sprintf("the source is assembled from token texts and separator atoms by a builder that records offset/line/column of each token's first byte while appending (never consulting the lexer); compared with parser.LexToList tokens (Pos, Lline, Lpos), comment and EOF tokens excluded. "+
+		"triple: ALL (separator combination of <=%d atoms out of %q) x (token kind) x (token kind) over %d token kinds (identifiers, keywords, numbers 1 / 1.5 / 1e+3, every symbol, quoted strings with escapes and multi-byte characters, raw strings with 0..3 embedded newlines incl. CRLF), also with the separator before the first token; combinations whose junction would merge two texts into one token (word+word, word+quote, word+'#', number+'.', two-character symbols, '/'+'*') are skipped; "+
+		"stream: random streams of <=40 tokens with random identifiers/keywords/numbers/symbols/strings and 0..3 random separator atoms (blank, tab, LF, CRLF, '# ...' and '/* ... */' comments with multi-byte text and 0..3 newlines), a blank is inserted where a junction is refused; "+
+		"sep: 2..6 one-line assignments separated only by comment/blank lines must parse into that many statements on their true lines; perr: ')' '}' ']' illegal identifiers or unterminated strings planted on a known line, the parser error must carry that line and column; rerr: a type error planted on a known line, the runtime error must point to the offending operand; bp: break point of the real debugger on the true line of a statement, observed at hook dbg.beforewait. "+
+		"The known deviation (no line-start update after a '#' comment) is a switch in the reference: reported as %s only if the result equals the reference with the switch on. "+
+		"distinct_nontrivial = distinct (separator combination, kind, kind) triples / distinct stream texts with >=2 compared tokens / distinct programs", maxAtoms, enumAtoms, len(enumKinds), devHash))
+	c.Note("exhaustive", "true")
+
+	// (a) exhaustive triples. case idx = (kind1, kind2) pair; all separator
+	// combinations inside the case.
+	nk := len(enumKinds)
+	for p := 0; p < nk*nk; p++ {
+		if !c.Take("triple", p) {
+			continue
+		}
+		k1, k2 := &enumKinds[p/nk], &enumKinds[p%nk]
+		c.Begin(0, "triple", p, k1.text+" <every separator combination> "+k2.text)
+		for si, sp := range seps {
+			first := ""
+			if len(sp) > 0 {
+				first = sp[0]
+			} else {
+				first = k2.text
+			}
+			if !mayFollow(k1, first) {
+				m.ev("triple.skipped(junction)")
+				continue
+			}
+			for variant := 0; variant < 2; variant++ {
+				b := newBuilder()
+				if variant == 1 {
+					if len(sp) == 0 {
+						continue
+					}
+					for _, a := range sp { // the same separator also before the first token
+						b.sep(a)
+					}
+				}
+				b.tok(k1)
+				for _, a := range sp {
+					b.sep(a)
+				}
+				b.tok(k2)
+				m.checkTokens("triple", p, b)
+				m.ev("triple.checked")
+				c.Nontrivial(core.Hash64(fmt.Sprintf("t|%d|%d|%d", p, si, variant)))
+			}
+		}
+		c.AddEvals(len(seps)*2 - 2)
+		if p%397 == 0 {
+			c.Sample("triple", map[string]interface{}{"kind1": k1.name, "kind2": k2.name, "separators": len(seps)})
+		}
+	}
+	c.End(0)
+
+	// (b) random streams
+	ns := c.Pick(60000, 1500000)
+	for i := 0; i < ns; i++ {
+		if !c.Take("stream", i) {
+			continue
+		}
+		r := c.Rng("stream", i)
+		b := newBuilder()
+		nt := 1 + r.Intn(40)
+		next := randToken(r)
+		if r.Bool() {
+			b.randSep(r, nil)
+		}
+		for t := 0; t < nt; t++ {
+			cur := next
+			b.tok(&cur)
+			if t == nt-1 {
+				if r.Bool() {
+					b.randSep(r, nil)
+				}
+				break
+			}
+			next = randToken(r)
+			b.randSep(r, &next)
+		}
+		c.Begin(0, "stream", i, b.String())
+		m.checkTokens("stream", i, b)
+		if nt >= 2 {
+			c.Nontrivial(core.Hash64("s|" + b.String()))
+		}
+		if i%9001 == 0 {
+			c.Sample("stream", map[string]interface{}{"input_quoted": fmt.Sprintf("%q", trunc(b.String(), 300)), "tokens": nt})
+		}
+	}
+	c.End(0)
+
+	// (c) programs: separation, planted errors, break points
+	np := c.Pick(6000, 100000)
+	for i := 0; i < np; i++ {
+		if c.Take("sep", i) {
+			c.Begin(0, "sep", i, "")
+			m.checkSeparation("sep", i, c.Rng("sep", i))
+		}
+		if c.Take("perr", i) {
+			c.Begin(0, "perr", i, "")
+			m.checkParseError("perr", i, c.Rng("perr", i))
+		}
+		if c.Take("rerr", i) {
+			c.Begin(0, "rerr", i, "")
+			m.checkRuntimeError("rerr", i, c.Rng("rerr", i))
+		}
+	}
+	nb := c.Pick(1500, 20000)
+	for i := 0; i < nb; i++ {
+		if c.Take("bp", i) {
+			c.Begin(0, "bp", i, "")
+			m.checkBreakpoint("bp", i, c.Rng("bp", i))
+		}
+	}
+	c.End(0)
+	for k, v := range m.counts {
+		c.Event(k, v)
+	}
 }
